@@ -291,7 +291,7 @@ def strip_suffix(v):
 
 
 class Path:
-    __slots__ = ('blocks', 'conds', 'events', 'outcome', 'ret_site', 'kind', 'event_args', 'field_stores', 'env', 'body')
+    __slots__ = ('blocks', 'conds', 'events', 'outcome', 'ret_site', 'kind', 'event_args', 'field_stores', 'env', 'body', '_tail')
 
     def __init__(self):
         self.blocks = []
